@@ -264,7 +264,10 @@ namespace nmtools::utils
                 using t_type = meta::get_element_type_t<T>;
                 using u_type = meta::get_element_type_t<U>;
                 using common_t = meta::common_type_t<t_type,u_type,E>;
-                auto abs_diff = constexpr_fabs(static_cast<t_type>(t)-static_cast<u_type>(u));
+                // take the difference in the common type (not narrowed to float), larger minus smaller so unsigned never wraps
+                const auto t_value = static_cast<common_t>(static_cast<t_type>(t));
+                const auto u_value = static_cast<common_t>(static_cast<u_type>(u));
+                auto abs_diff = (t_value < u_value) ? (u_value - t_value) : (t_value - u_value);
                 auto result = abs_diff < static_cast<common_t>(eps);
                 #if NMTOOLS_ISCLOSE_NAN_HANDLING
                 result = result || (math::isnan(static_cast<common_t>(t)) && math::isnan(static_cast<common_t>(u)));
